@@ -176,7 +176,7 @@ class PathWorld:
         elif form in ("angax_deg", "angax_rad", "angax_str"):
             rv = np.atleast_2d(rot.as_rotvec())
             ang = np.linalg.norm(rv, axis=1)
-            axis = rv[0] / ang[0]
+            axis = rv[0] / ang[0] if ang[0] > 1e-9 else np.array([0.0, 0.0, 1.0])      # unit rotation: angle 0 about z
             if form == "angax_str":
                 axis = {(1, 0, 0): "x", (0, 1, 0): "y", (0, 0, 1): "z"}[tuple(np.rint(axis).astype(int))]
             a = ang if form == "angax_rad" else np.degrees(ang)
@@ -198,6 +198,8 @@ class PathWorld:
                 out += ["angax_deg", "angax_rad"]
                 if self.k.identity and np.abs(np.abs(ax[0]).max() - 1) < 1e-12 and ax[0].max() > 0.5:
                     out.append("angax_str")
+        elif np.all(ang <= 1e-9):
+            out += ["angax_deg", "angax_rad", "angax_str"]                                # the unit rotation as angle 0
         return out
 
     def _bad(self, o, c):
